@@ -111,7 +111,7 @@ def k_closure(N=3, outcomes=4):
 
 
 def h_resubmit(shapes=("chain3", "fork3"), bss=(2,), flagsets=None, incomplete=True, second=False, max_steps=60, fault_kinds=None,
-               lock_mode="M1"):
+               lock_mode="M1", hooks=False):
     """second: the completed resubmission is resubmitted once more (exit codes of the first rerun are solver-chosen), same oracles.
     fault_kinds: one injected error (EDQUOT at a write-open, Timeout at a lock acquisition, sbatch failing on every retry) at a
     solver-chosen effect point of resubmit-jobs; oracle = C13's last clause (results not erased without a way forward)."""
@@ -164,7 +164,11 @@ def h_resubmit(shapes=("chain3", "fork3"), bss=(2,), flagsets=None, incomplete=T
         flags = [bool(blk.get(i)) and ex.flag("cf%d" % i) for i in range(N)]
         jobs = [dict(name=nm[i], command="job " + nm[i], blocked_by={nm[b] for b in blk.get(i, [])},
                      cancel_on_blocking_job_failure=flags[i]) for i in range(N)]
-        cfg = write_config(w, jobs, [slurm_group("default", per_node_batch_size=bs)])
+        cfg_kw = {}
+        if hooks:  # C16: setup once per submission, teardown once per completion, node hooks once per batch - across resubmissions
+            for h in ("setup", "teardown", "node_setup", "node_teardown"):
+                cfg_kw[h + "_command"] = "hook-%s --arg 'a b'" % h
+        cfg = write_config(w, jobs, [slurm_group("default", per_node_batch_size=bs)], **cfg_kw)
         out = os.path.join(w.root, "out")
         rc1 = {}
 
@@ -240,6 +244,10 @@ def h_resubmit(shapes=("chain3", "fork3"), bss=(2,), flagsets=None, incomplete=T
             return
         from jade.result import ResultsSummary
 
+        if hooks:
+            hk = w.events("hook")
+            ex.check(len([e for e in hk if e["argv"][0] == "hook-setup"]) == 1 and len([e for e in hk if e["argv"][0] == "hook-teardown"]) == 1,
+                     "C16: setup/teardown command did not run exactly once in the first submission", hooks=[e["argv"][0] for e in hk])
         rounds = 2 if second else 1
         for rnd in range(rounds):
             ok = _resubmission(ex, w, out, nm, blk, N, rnd, rnd == rounds - 1)
@@ -335,6 +343,27 @@ def h_resubmit(shapes=("chain3", "fork3"), bss=(2,), flagsets=None, incomplete=T
                          job=n, before=tuple(first[n]), after=tuple(final.get(n, ())), round=rnd)
             if n in clo and last:
                 ex.check(n in final and final[n].is_successful(), "C13: rerun job has no successful result although it exited 0", job=n)
+        if hooks:
+            hk = [e for e in w.events("hook") if e["seq"] > mark]
+            ex.check(not [e for e in hk if e["argv"][0] == "hook-setup"], "C16: setup command ran again for a resubmission", round=rnd)
+            td = [e for e in hk if e["argv"][0] == "hook-teardown"]
+            if clo:
+                ex.check(len(td) == 1, "C16: teardown command did not run exactly once when the resubmission completed",
+                         times=len(td), round=rnd)
+            for e in td:
+                ex.check(set(final) <= set(e["results_on_disk"]), "C16: teardown command ran before every rerun job had an outcome",
+                         have=sorted(set(e["results_on_disk"])), round=rnd)
+            for b_ in sorted({l["batch"] for l in launches}, key=str):
+                ls = [l for l in launches if l["batch"] == b_]
+                ns = [e for e in hk if e["argv"][0] == "hook-node_setup" and e["batch"] == b_]
+                nt = [e for e in hk if e["argv"][0] == "hook-node_teardown" and e["batch"] == b_]
+                ex.check(len(ns) == 1 and len(nt) == 1, "C16: node setup/teardown command did not run once per batch of a resubmission",
+                         batch=b_, setup=len(ns), teardown=len(nt), round=rnd)
+                for e in ns:
+                    ex.check(e["seq"] < min(l["seq"] for l in ls), "C16: node setup command ran after a job of the batch started")
+                for e in nt:
+                    ex.check({l["job"] for l in ls} <= set(e["results_on_disk"]),
+                             "C16: node teardown command ran before all jobs of the batch ended")
         c = cluster_status(out)
         if not data["missing_jobs"]:
             ex.check(c is not None and c.config.completed_jobs == N and c.config.submitted_jobs == N,
